@@ -674,25 +674,44 @@ impl Ctx {
             }
         }
         if have_model {
-            let req = self.model.ask(&tagged(
-                "request",
-                vec![st(&url), strs(case.headers.iter()), opt_str(case.authorization.as_deref()), boolean(case.is_one_of), boolean(case.specify_by_url)],
-            ));
-            let model_exit: i64;
-            let file_before_s = file_before.as_ref().map(|b| String::from_utf8_lossy(b).into_owned());
-            let mut model_file = file_before_s.clone();
-            let mut model_stdout = String::new();
-            match req.head() {
-                Some("usage") => {
-                    model_exit = 2;
-                    if !requests.is_empty() {
-                        disagree(&mut self.rep, "request", "none (usage error)".into(), format!("{} request(s)", requests.len()));
-                    }
+            // ONE request: the model's composed `introspectMain` (argv-level headers -> request -> reply handling), the
+            // function the theorems of Proofs/C20Composed.lean are about
+            let beh_sexp = match model_behaviour(&case.behaviour) {
+                Err(e) => {
+                    self.rep.internal.push(format!("cannot encode the behaviour for the model: {}", e));
+                    return;
                 }
-                Some("failure") | Some("panic") => {
-                    model_exit = if req.head() == Some("panic") { 101 } else { 1 };
+                Ok(b) => b,
+            };
+            let file_before_s = file_before.as_ref().map(|b| String::from_utf8_lossy(b).into_owned());
+            let run_reply = self.model.ask(&tagged(
+                "introspect-main",
+                vec![
+                    st(&url),
+                    strs(case.headers.iter()),
+                    opt_str(case.authorization.as_deref()),
+                    boolean(case.is_one_of),
+                    boolean(case.specify_by_url),
+                    beh_sexp,
+                    boolean(out_path.is_some()),
+                    boolean(!matches!(case.output, OutputMode::MissingDir)),
+                    opt_str(file_before_s.as_deref()),
+                    st(""),
+                ],
+            ));
+            if run_reply.head() != Some("run") {
+                self.rep.internal.push(format!("model reply to introspect-main: {}", run_reply.short(200)));
+                return;
+            }
+            let it = run_reply.items();
+            let model_exit: i64 = it[2].as_str().and_then(|s| s.parse().ok()).unwrap_or(-1);
+            let req = it[3].clone();
+            let model_file = it[4].items().first().and_then(|s| s.as_str()).map(|s| s.to_string());
+            let model_stdout = it[5].as_str().unwrap_or("").to_string();
+            match req.head() {
+                Some("none") => {
                     if !requests.is_empty() {
-                        disagree(&mut self.rep, "request", "none (the request cannot be built)".into(), format!("{} request(s)", requests.len()));
+                        disagree(&mut self.rep, "request", format!("none ({})", it[1].short(120)), format!("{} request(s)", requests.len()));
                     }
                 }
                 Some("request") => {
@@ -703,38 +722,15 @@ impl Ctx {
                                 if let Some(d) = diff_request(&req, r, &case.url_path) {
                                     disagree(&mut self.rep, "request", d, "see model".into());
                                 }
+                                if requests.len() > 1 {
+                                    disagree(&mut self.rep, "request", "exactly one request".into(), format!("{} requests", requests.len()));
+                                }
                             }
-                        }
-                    }
-                    match model_behaviour(&case.behaviour) {
-                        Err(e) => {
-                            self.rep.internal.push(format!("cannot encode the behaviour for the model: {}", e));
-                            return;
-                        }
-                        Ok(b) => {
-                            let reply = self.model.ask(&tagged(
-                                "introspect",
-                                vec![
-                                    b,
-                                    boolean(out_path.is_some()),
-                                    boolean(!matches!(case.output, OutputMode::MissingDir)),
-                                    opt_str(file_before_s.as_deref()),
-                                    st(""),
-                                ],
-                            ));
-                            if reply.head() != Some("result") {
-                                self.rep.internal.push(format!("model reply to introspect: {}", reply.short(200)));
-                                return;
-                            }
-                            let it = reply.items();
-                            model_exit = it[1].as_str().and_then(|s| s.parse().ok()).unwrap_or(-1);
-                            model_file = it[2].items().first().and_then(|s| s.as_str()).map(|s| s.to_string());
-                            model_stdout = it[3].as_str().unwrap_or("").to_string();
                         }
                     }
                 }
                 _ => {
-                    self.rep.internal.push(format!("model reply to request: {}", req.short(200)));
+                    self.rep.internal.push(format!("model reply to introspect-main (request part): {}", req.short(200)));
                     return;
                 }
             }
